@@ -5,6 +5,7 @@ Real: everything under cflib.crazyflie incl. SyncCrazyflie.  Stub: SimLink, SimC
 A plan is a history of sessions on ONE Crazyflie object; the last session is
 always fault free and must reach fully_connected.
 """
+import os
 import random
 
 from simkit import primitives as P
@@ -468,13 +469,16 @@ def check_history(ctx, hist, plan):
                 ambiguous = True
         if ambiguous:
             tags.append('error-races-first-packet')
-        if 'teardown-during-dispatch' in seqs:
+        td = [e[3][0] if e[3] else 'other' for e in ev if e[2] == 'teardown-during-dispatch']
+        by_dispatcher = bool(td) and all(x == 'self' for x in td)
+        if td and not by_dispatcher:
             tags.append('teardown-during-dispatch')
         if tainted:
             tags.append('after-teardown-during-dispatch')
         # raced attempts: clause-level signature with the primary race tag (see DESIGN 6.4)
         raced = bool(tags)
-        tag = (' [' + tags[0] + ']') if tags else (' [after-aborted-session]' if aborted_before else '')
+        tag = (' [' + tags[0] + ']') if tags else (' [teardown-by-dispatcher]' if by_dispatcher else
+                                                  ' [after-aborted-session]' if aborted_before else '')
         callers = [n for n in names if n in common.CALLERS]
         mark = len(ctx.violations)
         # clause 1
@@ -533,7 +537,10 @@ def check_history(ctx, hist, plan):
             aborted_before = True
         if raced:
             # stale per-session state may survive into every later attempt on this object
-            tainted = True
+            # (only a tear-down that ran concurrently with the dispatcher leaves such state behind)
+            if 'teardown-during-dispatch' in tags or 'after-teardown-during-dispatch' in tags:
+                tainted = True
+        if raced and not os.environ.get('VERIF_C02_RAW'):
             n0 = mark
             for v in ctx.violations[n0:]:
                 if not v['sig'].startswith(('C02/5 thread-died', 'C02/5 deadlock', 'C02/5 hang ', 'C02/5 api-raised')):
